@@ -45,7 +45,7 @@ def _replay_area(ctx):
         return None
 
 
-def run_cache(ctx, build=True):
+def run_cache(ctx, build=True, prop="C08"):
     """the real command.NewCompiler(size) (sha256 key over a gcache LFU) on sequences of near-identical texts: at every position the
     program (or refusal) it hands out must be the one a fresh compiler.Compile of that very text gives"""
     if build and not ctx.ensure_harness():
@@ -60,7 +60,7 @@ def run_cache(ctx, build=True):
         st["sequences"] += 1
         st["cache_size_%s" % inp.get("size")] += 1
         if "steps" not in out:
-            ctx.violation({"property": "C08", "class": "cache-not-transparent", "effect": "panic" if "panic" in out else "no-result"},
+            ctx.violation({"property": prop, "class": "cache-not-transparent", "effect": "panic" if "panic" in out else "no-result"},
                           "the compilation cache did not answer: %s" % canon(out)[:200], {"area": "nscache", "input": inp, "observed": out})
             continue
         texts = inp["texts"]
@@ -80,7 +80,7 @@ def run_cache(ctx, build=True):
                 shown = bytes.fromhex(texts[k]).decode("utf-8", "replace")
             except Exception:
                 shown = "?"
-            ctx.violation({"property": "C08", "class": "cache-not-transparent", "effect": effect},
+            ctx.violation({"property": prop, "class": "cache-not-transparent", "effect": effect},
                           "cache of size %s, text no. %d of the sequence (%r): %s" % (inp.get("size"), k + 1, shown[:120], effect.replace("-", " ")),
                           {"area": "nscache", "input": inp, "observed": out, "position": k})
             break
